@@ -312,5 +312,37 @@ def r17_4(ctx):
     (ctx.ok(construct, cv.loc(), nontrivial=False) if ok else ctx.bad(construct, "the validator no longer checks the range", cv.loc()))
 
 
+def r17_6(ctx):
+    """R17.6 (a) change_node answers anything but NO_CHANGE only after changeable(node) held (the warning dialog leads to
+    force_change_node, which toggles without the gate); (b) the choice-entry helper looks for the selected member's node
+    that is actually displayed (a member can have several nodes); (c) the float validator uses the setter's finiteness
+    test."""
+    repo = ctx.repo
+    f = repo.func(f"{MODEL}:MenuConfigState.change_node")
+    ctx.analysed(f.qual)
+    fl = Flow(f.node).run()
+    rets = [n for n in ast.walk(f.node) if isinstance(n, ast.Return) and n.value is not None and ast.unparse(n.value) != "ChangeResult.NO_CHANGE"]
+    construct = "MenuConfigState.change_node/every actionable answer is given after changeable(node)"
+    bad = [r for r in rets if ("self.changeable(node)", True) not in (fl.guards_at(r) or set())]
+    (ctx.bad(construct, f"`{ast.unparse(bad[0])}` is reachable without changeable(node): a locked or hidden row with a `warning` reaches force_change_node and "
+             "_perform_toggle on an option with no assignable value", f.loc(bad[0])) if bad or not rets else ctx.ok(construct, f.loc(rets[0]), returns=len(rets)))
+    s = repo.func(f"{MODEL}:MenuConfigState._select_selected_choice_sym")
+    ctx.analysed(s.qual)
+    idx = [n for n in ast.walk(s.node) if isinstance(n, ast.Call) and isinstance(n.func, ast.Attribute) and n.func.attr == "index"]
+    construct = "MenuConfigState._select_selected_choice_sym/searches all nodes of the selected member"
+    ok = bool(idx) and not any(isinstance(x, ast.Subscript) and ast.unparse(x.value).endswith(".nodes") for i in idx for x in ast.walk(i.args[0]))
+    (ctx.ok(construct, s.loc(idx[0]) if idx else s.loc()) if ok else
+     ctx.bad(construct, "only nodes[0] of the selected member is looked up in the displayed list: for a choice defined in several places the member's displayed node "
+             "is another one and index() raises ValueError", s.loc(idx[0]) if idx else s.loc()))
+    cv = repo.func(f"{FMT}:check_valid")
+    fl2 = Flow(cv.node).run()
+    fl_conv = [n for n in ast.walk(cv.node) if isinstance(n, ast.Call) and isinstance(n.func, ast.Name) and n.func.id == "float" and ast.unparse(n.args[0]) == cv.node.args.args[1].arg]
+    construct = "check_valid/float input accepted only if is_float() (finite), like set_value"
+    ok = bool(fl_conv) and all(any(k.startswith("is_float(") and p for k, p in (fl2.guards_at(c) or set())) for c in fl_conv)
+    (ctx.ok(construct, cv.loc(fl_conv[0]) if fl_conv else cv.loc()) if ok else
+     ctx.bad(construct, "the dialog parses the text with float() without the finiteness test of is_float(): inf/nan are accepted by the validator and ignored by set_value",
+             cv.loc(fl_conv[0]) if fl_conv else cv.loc()))
+
+
 def rules():
-    return [("R17.1", r17_1, 6), ("R17.5", r17_5, 4), ("R17.2", r17_2, 13), ("R17.3", r17_3, 4), ("R17.4", r17_4, 6)]
+    return [("R17.1", r17_1, 6), ("R17.5", r17_5, 4), ("R17.2", r17_2, 13), ("R17.3", r17_3, 4), ("R17.4", r17_4, 6), ("R17.6", r17_6, 3)]
